@@ -198,6 +198,8 @@ pub mod runtime;
 pub mod types;
 #[doc(hidden)]
 pub mod validators;
+#[cfg(feature = "verif-hooks")]
+pub mod verif_hooks;
 
 #[doc(hidden)]
 pub mod registry;
